@@ -3,6 +3,7 @@ import PncModel.Camx.Slab
 import PncModel.Camx.Landuse
 import PncModel.Camx.SlabRead
 import PncModel.Camx.CloudRainRead
+import PncModel.Camx.BoundaryRead
 /- line protocol for the binary-format models -/
 namespace Camx
 open Words Wire
@@ -104,6 +105,7 @@ def runBin : List String → String
   | "bnd-enc" :: toks => Slab.runBnd toks
   | "wind-read" :: toks => Wind.runRead toks
   | "cr-read" :: toks => CloudRain.runRead toks
+  | "bnd-read" :: toks => Boundary.runRead ("bnd-read" :: toks)
   | "slab-rd" :: toks => SlabRead.run ("slab-rd" :: toks)
   | "lu-enc" :: toks => Landuse.run ("lu-enc" :: toks)
   | "lu-read" :: toks => Landuse.run ("lu-read" :: toks)
